@@ -145,7 +145,7 @@ def run(tier):
         lib_judged += 1
         label = {"form": "lib", "query": e["query"], "focus": e["focus"], "items": e["labels"]}
         sigs = set()
-        if type_name_collisions(schema, e["doc"]):
+        if type_name_collisions(e["schema"], e["doc"]):
             sigs.add("two_paths_same_generated_type_name")
         if e["gen"] != "ok":
             rep.violation("supported_operation_rejected", label, e["gen_msg"] or e["gen"], sigs)
@@ -195,7 +195,7 @@ def run(tier):
     subset = []
     seen_foci = {}
     for e in entries:
-        if e["errs"] or e["gen"] != "ok":
+        if e["errs"] or e["gen"] != "ok" or e["schema_name"] != "CORE":
             continue
         n = len(e["labels"])
         if n == 1 or tier == "thorough" or (n == 2 and seen_foci.get((e["focus"], e["labels"][0]), 0) < 1):
